@@ -430,7 +430,7 @@ impl Property for C08 {
     type Scenario = Scenario;
 
     fn rule() -> String {
-        "seeded simulations of 2-4 hosts, fail_rate 0, no partitions: numbered UDP datagrams and framed TCP traffic (connects, data in both directions, FINs) on random ordered pairs, counts within the configured socket capacities (capacities fitted exactly in a third of the runs). Faults: (a) 1-3 hold/release cycles on pairs or host sets (name, IP, regex, `.*`) placed at arbitrary steps, issued from the Sim handle or from host code at virtual instants, repeated holds, holds never released before the final release-all; (b) manual delivery: one link held, 1-6 messages (datagrams, SYNs, segments) held on it, the controller marks what Sim::links lists and then delivers - via variants - EVERY subset in EVERY order (one SentRef::deliver per step gap: 65 plans for 4 messages) plus every subset within one gap in reverse call order; more than 4 held messages: 24 seeded plans. Sim::links is sampled before and after every controller action and at the end. Oracle: reference model of each link (held flag + in-flight multiset, event order; a hold call makes every message whose latency has not elapsed under both clock readings held, messages in the one-tick ambiguity zone may go either way): a held message is never received while the hold lasts; after release/deliver every message is received exactly once (no loss by the end of the run, no duplicate); messages released by one call are received in send order per receiving socket; messages on unheld links keep the C14 window [min - tick, max + tick]; Sim::links lists exactly the model's in-flight messages (every pair once, right link, src/dst hosts and ports, protocol, identity decoded from the payload; SYNs by count). Non-trivial: >=2 messages held simultaneously on one link; distinct = digest of (call kinds and issuers, per message: kind, final state, held or not)".into()
+        "seeded simulations of 2-4 hosts, fail_rate 0, no partitions: numbered UDP datagrams and framed TCP traffic (connects, data in both directions, FINs) on random ordered pairs, counts within the configured socket capacities (capacities fitted exactly in a third of the runs). Faults: (a) 1-3 hold/release cycles on pairs or host sets (name, IP, regex, `.*`) placed at arbitrary steps, issued from the Sim handle or from host code at virtual instants, repeated holds, holds never released before the final release-all; (b) manual delivery: one link held, 1-6 messages (datagrams, SYNs, segments) held on it, the controller marks what Sim::links lists and then delivers - via variants - EVERY subset in EVERY order (one SentRef::deliver per step gap: 65 plans for 4 messages) plus every subset within one gap in reverse call order; more than 4 held messages: 24 seeded plans. Sim::links is sampled before and after every controller action and at the end. Oracle: reference model of each link (held flag + in-flight multiset, event order; a hold call makes every message whose latency has not elapsed under both clock readings held, messages in the one-tick ambiguity zone may go either way): a held message is never received while the hold lasts; after release/deliver every message is received exactly once (no loss by the end of the run, no duplicate); messages released by one call are received in send order per receiving socket; messages on unheld links keep the C14 window [min - tick, max + tick]; Sim::links lists exactly the model's in-flight messages (every pair once, right link, src/dst hosts and ports, protocol, identity decoded from the payload; SYNs by count). Non-trivial: >=2 messages held simultaneously on one link; distinct = digest of (call kinds and issuers, per message: kind, final state, held or not). Added later: half of the manual plans never release; holds and releases in the very gap of manual deliveries; receive paths recv_from / readable+recv_from / readable+try_recv_from; a capacity flavour in which tcp_capacity (1-4) is filled exactly by held SYNs, or by held data segments followed by the FIN, and released in one step; in-flight certainty judged per clock (host instants, link clock).".into()
     }
     fn components_real() -> Vec<&'static str> {
         vec!["turmoil: Sim::hold/release and the free functions, Sim::links / LinksIter / LinkIter / SentRef::{pair, protocol, deliver} / deliver_all, Topology/Link (Hold status, release, maturing), net::UdpSocket, net::TcpListener/TcpStream (SYN queue, reorder buffer)"]
